@@ -250,7 +250,12 @@ func (s *Session) Run(ctx context.Context, dir string, args ...string) error {
 						log.Printf("ignoring %s", line)
 						continue
 					} else {
-						for _, output := range iop.OutputSet {
+						for i := range iop.OutputSet {
+							// Work on the set's element, not on a
+							// copy: what is recorded below is what
+							// says "already matched" for the
+							// messages that follow.
+							output := &iop.OutputSet[i]
 							if output.Bindingss != nil {
 								continue
 							}
@@ -288,6 +293,10 @@ func (s *Session) Run(ctx context.Context, dir string, args ...string) error {
 										return err
 									}
 									bss = []match.Bindings{exe.Bs}
+									if exe.Bs == nil {
+										// The guard rejected the match.
+										bss = nil
+									}
 								}
 							}
 							if bss != nil {
